@@ -325,9 +325,16 @@ def evaluate(case, res):
     # the chain is RUNNING when the rerun transaction commits
     for actor, h in handlers.items():
         wfs, tasks = h['rows']
+        rerun_targets = set(o['target_id'] for o in res.ops_log
+                            if o['op']['op'] == 'rerun' and o['target_id'])
         for tid, (so, sn, rc) in h['tasks'].items():
             t = tasks.get(tid) or {}
-            if so == 'ERROR' and sn in ('RUNNING', 'WAITING', 'DELAYED'):
+            # (only the task the rerun was asked for: a skip, or a join that
+            # a route of the skipped / rerun task reaches again, may finish
+            # the workflow through a succeed / fail command in the very
+            # same transaction)
+            if tid in rerun_targets and so == 'ERROR' and \
+                    sn in ('RUNNING', 'WAITING', 'DELAYED'):
                 # walk up
                 wid = t.get('workflow_execution_id')
                 while wid:
